@@ -238,6 +238,24 @@ def replay_generic(ctx, obj):
     from ._adapters2 import SEARCH_ONLY
 
     ad = ADAPTERS.get(inp["format"]) or SEARCH_ONLY.get(inp["format"])
+    if inp["format"] == "gro" and inp["kind"] == "c03":
+        from ._gro import GRO
+
+        ad = GRO
+    if inp["format"] == "mol2" and inp["kind"] == "c03":
+        from ._mol2 import MOL2
+
+        ad = MOL2
+    if inp["format"] == "cube" and inp["kind"] == "c03":
+        from ._cube import CUBE
+
+        ad = CUBE
+    if inp["format"] == "fchk":
+        from . import _fchk
+
+        if inp["kind"] == "c03":
+            return _fchk.replay_c03(inp)
+        ad = _fchk.FCHK_FREE
     if inp["kind"] == "c03raw":
         from ._adapters2 import SPEC_ONLY
 
@@ -288,7 +306,9 @@ def corpus_cycles(ctx):
         # deterministic sample per seed: small files first
         files = [p for p in files if p.stat().st_size < 400_000 and not p.name.endswith(SLOW_SUFFIX)]
         ctx.rng.shuffle(files)
-        files = files[:45]
+        # always present: files with multi-line records that a save/reload cycle must not grow (2bcw.pdb: 14-line COMPND)
+        always = [p for p in files if p.name in ("2bcw.pdb", "2luv.pdb", "peptide_2luv.sdf")]
+        files = always + [p for p in files[:45] if p not in always]
     for p in files:
         if ctx.time_left(budget) < 0:
             break
